@@ -205,6 +205,26 @@ def run(cs, counters, script=None):
                 if kk not in before_keys:
                     vio.append({'key': 'invalid-after:udf:%s' % kk, 'detail': d})
             counters['udf_images_redecoded'] = counters.get('udf_images_redecoded', 0) + 1
+            # every File Entry that names the file carries the new length and maps the new bytes;
+            # every other File Entry is what it was
+            u_before = dec_before.get('udf') or _iudf.decode(before)
+            mine_u = {p_ for ns_, p_ in names if ns_ == 'udf'}
+            own_blocks = {u_before.tree[p_].fe_block for p_ in mine_u if p_ in u_before.tree}
+            for pth, nb in u_before.tree.items():
+                if nb.kind != 'file':
+                    continue
+                na = u_after.tree.get(pth)
+                if na is None:
+                    vio.append({'key': 'records:udf:lost', 'detail': '%s no longer decoded' % pth[:60]})
+                    break
+                if pth in mine_u or nb.fe_block in own_blocks:
+                    counters['own_udf_entries_checked'] = counters.get('own_udf_entries_checked', 0) + 1
+                    if na.length != newlen or sum(l_ for _s, l_ in na.extents) != newlen:
+                        vio.append({'key': 'records:udf:own-length', 'detail': 'the File Entry of %s says %d bytes (extents %d), expected %d' % (pth[:60], na.length, sum(l_ for _s, l_ in na.extents), newlen)})
+                    elif newlen <= (1 << 20) and _iudf.read_file(after, na) != newdata:
+                        vio.append({'key': 'records:udf:own-bytes', 'detail': 'the File Entry of %s does not lead to the new bytes' % pth[:60]})
+                elif (na.length, na.extents) != (nb.length, nb.extents):
+                    vio.append({'key': 'records:udf:other-changed', 'detail': '%s: length/extents %r -> %r' % (pth[:60], (nb.length, nb.extents), (na.length, na.extents))})
         if cfg.rr:
             from harness.indep import susp as _susp
             rr_after = _susp.decode(after, dec)
